@@ -124,6 +124,8 @@ def check_modules(orig_exp, alloc, what):
 def run_history(c):
     try:
         alloc = A.build(c)
+    except Violation:
+        raise
     except Exception as e:
         raise RuntimeError("generator produced an allocation the constructor rejects: %s: %s\n%s" % (type(e).__name__, e, c))
     snap0 = A.snapshot(alloc)
